@@ -1,4 +1,5 @@
 import ArgMapper.Model.Sig
+import ArgMapper.Proofs.ValueSets
 /-!
 # C15 — value sets round-trip values faithfully
 Property theorems only (helper lemmas in `ArgMapper/Proofs/Sig.lean`).
@@ -18,7 +19,7 @@ def TagRoundTrips (vs : List Label) : Prop :=
 theorem values_roundtrip (vs : List Label) (ht : TagRoundTrips vs) :
     ∃ s, newValueSetOfValues vs = .ok s ∧ s.labels = vs.map (fun l => { l with name := lower l.name }) ∧
       s.values.map (·.index) = (List.range vs.length).map (· + 1) := by
-  sorry
+  exact ⟨_, newValueSetOfValues_eq vs ht, rtVal_labels vs, rtVal_indices vs⟩
 
 /-- **C15_lookup** — each named value is found by its name, each type-only value by its type (when
 no later type-only value has the same type), and by type and subtype when no other value of the
@@ -28,37 +29,67 @@ theorem lookup_named (vs : List Label) (ht : TagRoundTrips vs) (s : ValueSet)
     (hlow : lower l.name ≠ "")
     (huniq : ∀ j l', vs[j]? = some l' → lower l'.name = lower l.name → j = i) :
     (s.namedLookup (lower l.name)).map (·.lab) = some { l with name := lower l.name } := by
-  sorry
+  rw [newValueSetOfValues_eq vs ht] at hs
+  cases hs
+  have _ := hn
+  exact named_lookup_rt vs i l hi hlow huniq
 
 theorem lookup_typed (vs : List Label) (ht : TagRoundTrips vs) (s : ValueSet)
     (hs : newValueSetOfValues vs = .ok s) (i : Nat) (l : Label) (hi : vs[i]? = some l) (hn : l.name = "")
     (huniq : ∀ j l', vs[j]? = some l' → l'.name = "" → l'.ty = l.ty → j = i) :
     (s.typedLookup l.ty).map (·.lab) = some l := by
-  sorry
+  rw [newValueSetOfValues_eq vs ht] at hs
+  cases hs
+  exact typed_lookup_rt vs i l hi hn huniq
 
 theorem lookup_typed_sub (vs : List Label) (ht : TagRoundTrips vs) (s : ValueSet)
     (hs : newValueSetOfValues vs = .ok s) (i : Nat) (l : Label) (hi : vs[i]? = some l)
     (huniq : ∀ j l', vs[j]? = some l' → l'.ty = l.ty → l'.sub = l.sub → j = i) :
     (s.typedSubLookup l.ty l.sub).map (·.lab) = some { l with name := lower l.name } := by
-  sorry
+  rw [newValueSetOfValues_eq vs ht] at hs
+  cases hs
+  exact typedSub_lookup_rt vs i l hi huniq
 
 /-- **C15_signature_roundtrip** — loading the values a struct-form set renders as its signature
 restores every value (indices of a set are pairwise distinct) -/
 theorem signature_roundtrip (s : ValueSet) (hnd : (s.values.map (·.index)).Nodup)
     (vals : List (Option Nat)) (hl : vals.length = s.values.length) :
     s.roundTrip vals = vals := by
-  sorry
+  exact roundTrip_eq s.values hnd vals hl
 
-/-- the rendered signature of a positional set whose types are pairwise distinct is the parameter
-type list; with a repeated type the lifted branch indexes out of range (finding F1, repaired) -/
-theorem signature_positional (ps : List Param) (hne : 2 ≤ ps.length) (hns : ∀ p ∈ ps, p.isStruct = false)
+/-- before the repair of finding F1 the rendered signature of a positional set was the parameter type
+list only when the types were pairwise distinct … -/
+theorem signature_positional_pre_repair (ps : List Param) (hne : 2 ≤ ps.length) (hns : ∀ p ∈ ps, p.isStruct = false)
     (hd : (ps.map Param.ty).Nodup) (s : ValueSet) (hs : newValueSet ps = .ok s) :
-    s.signature 0 = some (ps.map Param.ty) := by
-  sorry
+    s.signatureByTypeMap 0 = some (ps.map Param.ty) := by
+  rw [newValueSet_eq_lifted ps hns (by intro h; simp [h] at hne), newValueSetLifted_eq ps hns] at hs
+  cases hs
+  exact signature_lifted (ps.map Param.ty) _ rfl (typed_lifted _ hd) 0
 
 /-- non-vacuity of `TagRoundTrips` on labels with mixed case, a subtype containing `=`, and a
 type-only value -/
 example : TagRoundTrips [⟨"Port", 0, ""⟩, ⟨"", 1, "k=v"⟩, ⟨"xY", 2, "YQ=="⟩] := by
-  sorry
+  have h0 : fieldLabelC (valueField 0 ⟨"Port", 0, ""⟩) = ⟨"port", 0, ""⟩ := by decide +kernel
+  have h1 : fieldLabelC (valueField 1 ⟨"", 1, "k=v"⟩) = ⟨"", 1, "k=v"⟩ := by decide +kernel
+  have h2 : fieldLabelC (valueField 2 ⟨"xY", 2, "YQ=="⟩) = ⟨"xy", 2, "YQ=="⟩ := by decide +kernel
+  have l0 : lower "Port" = "port" := by decide +kernel
+  have l1 : lower "" = "" := by decide +kernel
+  have l2 : lower "xY" = "xy" := by decide +kernel
+  intro i l h
+  rw [fieldLabel_eq_C]
+  rcases i with _ | _ | _ | n
+  · simp only [List.getElem?_cons_zero, Option.some.injEq] at h
+    subst h
+    show fieldLabelC (valueField 0 ⟨"Port", 0, ""⟩) = ⟨lower "Port", 0, ""⟩
+    rw [h0, l0]
+  · simp only [List.getElem?_cons_succ, List.getElem?_cons_zero, Option.some.injEq] at h
+    subst h
+    show fieldLabelC (valueField 1 ⟨"", 1, "k=v"⟩) = ⟨lower "", 1, "k=v"⟩
+    rw [h1, l1]
+  · simp only [List.getElem?_cons_succ, List.getElem?_cons_zero, Option.some.injEq] at h
+    subst h
+    show fieldLabelC (valueField 2 ⟨"xY", 2, "YQ=="⟩) = ⟨lower "xY", 2, "YQ=="⟩
+    rw [h2, l2]
+  · simp at h
 
 end ArgMapper.C15
